@@ -172,10 +172,23 @@ def m2(prog, ctx):
     res_names = {st_.targets[0].id for st_ in walk_no_nested(rm) if isinstance(st_, ast.Assign) and isinstance(st_.targets[0], ast.Name)
                  and isinstance(st_.value, ast.Call) and (call_name(st_.value) or "").endswith(".resolve")}
     filed = []
-    for lp in [l for l in walk_no_nested(rm) if isinstance(l, ast.For) and isinstance(l.iter, ast.Name) and l.iter.id in res_names]:
+
+    def record_var(l):
+        """the loop variable that ranges over the resolver's output: `for a in res` or `for a, x in zip(res, xs)`"""
+        if isinstance(l.iter, ast.Name) and l.iter.id in res_names and isinstance(l.target, ast.Name):
+            return l.target.id
+        if isinstance(l.iter, ast.Call) and call_name(l.iter) in ("zip", "enumerate") and isinstance(l.target, ast.Tuple):
+            for k_, a_ in enumerate(l.iter.args):
+                if isinstance(a_, ast.Name) and a_.id in res_names:
+                    pos_ = k_ + (1 if call_name(l.iter) == "enumerate" else 0)
+                    if pos_ < len(l.target.elts) and isinstance(l.target.elts[pos_], ast.Name):
+                        return l.target.elts[pos_].id
+        return None
+    for lp in [l for l in walk_no_nested(rm) if isinstance(l, ast.For) and record_var(l)]:
+        rv_ = record_var(lp)
         for c in ast.walk(lp):
-            if isinstance(c, ast.Call) and isinstance(c.func, ast.Attribute) and c.func.attr == "append" and [src(a) for a in c.args] == [src(lp.target)] \
-                    and isinstance(c.func.value, ast.Subscript) and src(c.func.value.slice) == src(lp.target) + ".chr_id":
+            if isinstance(c, ast.Call) and isinstance(c.func, ast.Attribute) and c.func.attr == "append" and [src(a) for a in c.args] == [rv_] \
+                    and isinstance(c.func.value, ast.Subscript) and src(c.func.value.slice) == rv_ + ".chr_id":
                 filed.append((lp, c))
     if len(filed) != 1:
         ctx.undecided("M2", rm, rm._qualname, "found %d loops filing the resolver's output per chromosome (helpers inlined), expected one" % len(filed))
@@ -187,6 +200,26 @@ def m2(prog, ctx):
                      "chromosome task that holds an unwritten (losing) alignment finds no verdict for it" % " and ".join(g.text() for g in gs))
         else:
             ctx.ok("M2", "%s:%d" % (DSP, c.lineno), "every alignment of a resolved read (kept or suspended) is written to its chromosome's verdict file")
+        # ... and every chromosome it was filed under is written: the writing loop ranges over the keys of the filing table itself
+        table = src(c.func.value.value)
+        wcalls = [x for x in walk_no_nested(rm) if isinstance(x, ast.Call) and (call_name(x) or "") == "write_list" and x.args
+                  and src(x.args[0]).startswith(table + "[")]
+        wl = []
+        for x in wcalls:
+            encl = [l for l in flow.enclosing_loops(x) if isinstance(l, ast.For)]
+            if encl and not any(encl[-1] is y for y in wl):
+                wl.append(encl[-1])           # the loop the write stands in directly
+        for l in wl:
+            it = l.iter
+            while isinstance(it, ast.Call) and (call_name(it) in ("sorted", "list") or (isinstance(it.func, ast.Attribute) and it.func.attr in ("keys", "items"))):
+                it = it.args[0] if call_name(it) in ("sorted", "list") and it.args else it.func.value
+            if src(it) == table:
+                ctx.ok("M2", "%s:%d" % (DSP, l.lineno), "the verdicts are written for every chromosome of %s" % table)
+            else:
+                ctx.fail("M2", l, rm._qualname, "for %s in %s" % (src(l.target), src(l.iter)[:50]), "the verdicts of a resolved read are written for "
+                         "the chromosomes in %s, not for every chromosome the read's alignments were filed under (%s): the loader re-applies "
+                         "assignment_type, gene_assignment_type and multimapper from the verdict, so a chromosome that is left out keeps "
+                         "stale values of those fields" % (src(l.iter)[:40], table))
     # who produces stage-2 assignment lists: NormalTmpFileAssignmentLoader only inside ReadAssignmentLoader
     users = []
     for m, q, f in prog.all_functions():
